@@ -1,3 +1,168 @@
 package main
 
-func workerMain() {}
+import (
+	"bufio"
+	"encoding/hex"
+	"fmt"
+	"os"
+	"os/exec"
+	"path/filepath"
+	"runtime"
+	"runtime/debug"
+	"strings"
+	"sync/atomic"
+	"time"
+
+	"github.com/edutko/decipher/internal/file"
+)
+
+// Isolated worker: a child process that inspects one case per input line
+// ("name \t hex-data") and answers one line per case:
+//   ok <desc-hex> | panic <msg-hex>
+// A fatal runtime error (stack overflow, out of memory), a watchdog exit (memory 99,
+// deadline 98) or any other death of the child is observed by the parent, which attributes
+// it to the case in flight and restarts the worker for the remaining cases.
+
+var workerBusySince atomic.Int64
+
+func workerMain() {
+	dir := os.Args[2]
+	debug.SetMaxStack(256 << 20)
+	go func() { // watchdog
+		var ms runtime.MemStats
+		for {
+			time.Sleep(50 * time.Millisecond)
+			runtime.ReadMemStats(&ms)
+			if ms.HeapAlloc > 1536<<20 {
+				fmt.Fprintln(os.Stderr, "WATCHDOG memory")
+				os.Exit(99)
+			}
+			if t := workerBusySince.Load(); t != 0 && time.Now().UnixNano()-t > int64(10*time.Second) {
+				fmt.Fprintln(os.Stderr, "WATCHDOG deadline")
+				os.Exit(98)
+			}
+		}
+	}()
+	sc := bufio.NewScanner(os.Stdin)
+	sc.Buffer(make([]byte, 1<<20), 1<<30)
+	w := bufio.NewWriter(os.Stdout)
+	for sc.Scan() {
+		parts := strings.SplitN(sc.Text(), "\t", 2)
+		data, _ := hex.DecodeString(parts[1])
+		p := filepath.Join(dir, parts[0])
+		os.MkdirAll(filepath.Dir(p), 0o755)
+		os.WriteFile(p, data, 0o644)
+		workerBusySince.Store(time.Now().UnixNano())
+		res := func() (out string) {
+			defer func() {
+				if r := recover(); r != nil {
+					out = "panic " + hex.EncodeToString([]byte(fmt.Sprint(r)))
+				}
+			}()
+			f, err := os.Open(p)
+			if err != nil {
+				return "ok "
+			}
+			defer f.Close()
+			i, _ := file.Inspect(f)
+			return "ok " + hex.EncodeToString([]byte(i.Description))
+		}()
+		workerBusySince.Store(0)
+		os.Remove(p)
+		fmt.Fprintln(w, res)
+		w.Flush()
+	}
+}
+
+type workerCase struct {
+	Name string
+	Data []byte
+}
+
+type workerResult struct {
+	Outcome string // ok | panic | fatal | timeout | oom
+	Detail  string
+}
+
+// runIsolated runs all cases through worker children and returns one result per case.
+func runIsolated(c *Ctx, cases []workerCase) []workerResult {
+	res := make([]workerResult, len(cases))
+	self, _ := os.Executable()
+	dir := filepath.Join(c.Tmp, "worker")
+	os.MkdirAll(dir, 0o755)
+	i := 0
+	for i < len(cases) {
+		cmd := exec.Command(self, "worker", dir)
+		cmd.Env = append(os.Environ(), "GOMEMLIMIT=1200MiB")
+		stdin, _ := cmd.StdinPipe()
+		stdout, _ := cmd.StdoutPipe()
+		var stderr strings.Builder
+		cmd.Stderr = &limitedWriter{sb: &stderr, max: 8192}
+		if err := cmd.Start(); err != nil {
+			fmt.Fprintln(os.Stderr, "worker start:", err)
+			os.Exit(1)
+		}
+		start := i
+		go func() {
+			bw := bufio.NewWriterSize(stdin, 1<<20)
+			for k := start; k < len(cases); k++ {
+				fmt.Fprintf(bw, "%s\t%s\n", cases[k].Name, hex.EncodeToString(cases[k].Data))
+				if bw.Flush() != nil {
+					return
+				}
+			}
+			stdin.Close()
+		}()
+		sc := bufio.NewScanner(stdout)
+		sc.Buffer(make([]byte, 1<<20), 1<<26)
+		for sc.Scan() {
+			parts := strings.SplitN(sc.Text(), " ", 2)
+			d := ""
+			if len(parts) > 1 {
+				b, _ := hex.DecodeString(parts[1])
+				d = string(b)
+			}
+			res[i] = workerResult{Outcome: parts[0], Detail: d}
+			i++
+		}
+		err := cmd.Wait()
+		if i < len(cases) && (err != nil || i == start) {
+			// the child died while case i was in flight
+			code := -1
+			if ee, ok := err.(*exec.ExitError); ok {
+				code = ee.ExitCode()
+			}
+			oc := "fatal"
+			switch code {
+			case 99:
+				oc = "oom"
+			case 98:
+				oc = "timeout"
+			}
+			msg := stderr.String()
+			if k := strings.Index(msg, "\n"); k > 0 && len(msg) > 300 {
+				msg = msg[:300]
+			}
+			res[i] = workerResult{Outcome: oc, Detail: msg}
+			i++
+		}
+	}
+	os.RemoveAll(dir)
+	return res
+}
+
+type limitedWriter struct {
+	sb  *strings.Builder
+	max int
+}
+
+func (l *limitedWriter) Write(p []byte) (int, error) {
+	if l.sb.Len() < l.max {
+		n := l.max - l.sb.Len()
+		if n > len(p) {
+			n = len(p)
+		}
+		l.sb.Write(p[:n])
+	}
+	return len(p), nil
+}
